@@ -39,7 +39,7 @@ def configs(tier):
             # DenseMatrix: axpy/scale/norm and the multiply overloads (left factor: all CSR patterns; all 25 (alpha, beta))
             C("csr", "delem", (1, 4), z, (1, 5), pal=1), C("csr", "delem", (1, 4), z, (1, 5), pal=2),
             C("csr", "dmul", (1, 3), (1, 3), (1, 3), pal=1, abfull=True, arrayless=True),
-            C("csr", "dmul", (1, 3), (1, 3), (1, 3), pal=2, abfull=True),
+            C("csr", "dmul", (1, 3), (1, 3), (1, 3), pal=2), C("csr", "dmul", (1, 2), (1, 3), (1, 2), pal=2, abfull=True),
             C("csr", "dmul", (4, 4), (3, 3), (2, 2), pal=1, arrayless=True), C("csr", "dmul", (3, 3), (4, 4), (2, 2), pal=1),
             C("csr", "dmul", (2, 2), (2, 2), (4, 5), pal=1, abfull=True), C("csr", "dmul", (5, 5), (2, 2), (1, 1), pal=2, maxrow=1),
         ]
